@@ -73,6 +73,7 @@ theorem refineMembers_eq (ms : List Node) : refineMembers ms = ms.filter isRefin
   unfold refineMembers
   congr 1
 
+set_option maxHeartbeats 1000000 in
 /-- one member: what the specification adds is what `emitStep` adds (refined members only) -/
 theorem emitStep_member (fuel : Nat) (st : St) (hle : fuel ≤ FUEL) (hg : st.typeGaveUp = false) (acc a : List String) (m : Node)
     (h : emitMemberSpec fuel st (some acc) m = some a) :
@@ -117,8 +118,8 @@ theorem emitStep_member (fuel : Nat) (st : St) (hle : fuel ≤ FUEL) (hg : st.ty
       simp only [emitMemberSpec, Option.some.injEq] at h
       subst h
       obtain ⟨kind, kas, kks⟩ := key
-      cases kind <;> try (simp [isRefined, emitStep, memberKeyName, pickName]; done)
-      all_goals (cases kas <;> simp [isRefined, emitStep, memberKeyName, pickName])
+      cases kind <;> try (simp [isRefined, emitStep, memberKeyName, pickName, specKeyC, specKey]; done)
+      all_goals (cases kas <;> simp [isRefined, emitStep, memberKeyName, pickName, specKeyC, specKey, nIdentName, nIdent] <;> (try split) <;> simp_all [pickName])
   case tsMethodSig =>
     match ks with
     | [] => simp [emitMemberSpec] at h; simp [isRefined, emitStep, memberKeyName, h]
@@ -126,8 +127,8 @@ theorem emitStep_member (fuel : Nat) (st : St) (hle : fuel ≤ FUEL) (hg : st.ty
       simp only [emitMemberSpec, Option.some.injEq] at h
       subst h
       obtain ⟨kind, kas, kks⟩ := key
-      cases kind <;> try (simp [isRefined, emitStep, memberKeyName, pickName]; done)
-      all_goals (cases kas <;> simp [isRefined, emitStep, memberKeyName, pickName])
+      cases kind <;> try (simp [isRefined, emitStep, memberKeyName, pickName, specKeyC, specKey]; done)
+      all_goals (cases kas <;> simp [isRefined, emitStep, memberKeyName, pickName, specKeyC, specKey, nIdentName, nIdent] <;> (try split) <;> simp_all [pickName])
 
 theorem foldl_emitMemberSpec_none (fuel : Nat) (st : St) : ∀ l : List Node, l.foldl (emitMemberSpec fuel st) none = none
   | [] => rfl
